@@ -43,6 +43,14 @@ func datagram(class string, seq int) []byte {
 	v["EventIndex"] = uint32(70 + seq)
 	v["CardNumber"] = uint32(8000000 + seq)
 	v["SystemTime"] = spec.HMS{H: 13, M: 47, S: 10 + seq}
+	// every datagram of a sequence differs from its neighbours in every kind of field, the door and
+	// button flags included (storage shared between two delivered statuses must show)
+	for d := 1; d <= 4; d++ {
+		v[fmt.Sprintf("Door%dState", d)] = (seq>>(d-1))&1 == 1
+		v[fmt.Sprintf("Door%dButton", d)] = (seq>>(d-1))&1 == 0
+	}
+	v["RelayState"] = uint8(seq & 0x0f)
+	v["InputState"] = uint8(0x0f - seq&0x0f)
 	if class == "valid-index-0" {
 		v["EventIndex"] = uint32(0)
 	}
